@@ -5483,6 +5483,9 @@ class CodegenCtx:
         elif isinstance(intexpr, StringRefIntegerExpr):
             index = self._generate_code_for_int_expr(intexpr.index, ctx)
             text = self._generate_buflike_index_expr(intexpr.ref, index)
+            if intexpr.ref.holds_a(OutputStorageType.STR) and not ProgramData.do(ProgramFlag.STRINGS_AS_U8):
+                # an indexed byte is a value 0-255 whatever the element type of the string is
+                text = f"((uint8_t){text})"
             size_str = self._generate_buflike_length_expr(intexpr.ref)
             if ProgramData.do(ProgramFlag.UNSAFE_STRING_INDEXING):
                 return text
